@@ -262,6 +262,25 @@ def dqm_energies(dqm, nvars=None, cap=None):
     return [([starts[v] + c for v, c in zip(vs, r)], F(e)) for r, e in zip(rows, en)]
 
 
+def raw_adj(dqm):
+    """the cyDQM's variable-level adjacency vectors as they are"""
+    return [[int(x) for x in row] for row in dqm._cydqm.adj]
+
+
+def raw_quad(dqm):
+    """case-level interactions straight from the native structure (not through the adjacency lists)"""
+    _, _, (irow, icol, qdata) = dqm._cydqm.to_numpy_vectors()
+    return [(int(r), int(c), F(q)) for r, c, q in zip(irow, icol, qdata)]
+
+
+def coq_adj(adj):
+    return clist([clist([cnat(x) for x in row]) for row in adj])
+
+
+def coq_rawq(q):
+    return clist([f"({cnat(u)}, {cnat(v)}, {cq(b)})" for u, v, b in q])
+
+
 def coq_en(rows):
     return clist([cpair(clist([cpair(cnat(l), cq(1)) for l in ls]), cq(e)) for ls, e in rows])
 
@@ -356,6 +375,7 @@ def run_dqm_eq(c):
     dqm, labels = build_dqm(c)
     before = observe_dqm(dqm)
     en_before = dqm_energies(dqm)
+    adj_before = raw_adj(dqm)
     lam, const = F(c["lam"]), F(c["const"])
     dqm.add_linear_equality_constraint([(labels[i], a, float(b)) for i, a, b in c["terms"]], float(lam), float(const))
     after = observe_dqm(dqm)
@@ -363,7 +383,8 @@ def run_dqm_eq(c):
     gt = dqm_terms(c, labels, before["starts"])
     terms = clist([cpair(cnat(l), cq(b)) for l, b in gt])
     coq = (f"(mkDqmEq {cnat(after['n'])} {coq_groups(after['groups'])} {terms} {cq(lam)} {cq(const)} "
-           f"{coq_dobs(before)} {coq_dobs(after)} {coq_en(en_before)} {coq_en(en_after)})")
+           f"{coq_dobs(before)} {coq_dobs(after)} {coq_en(en_before)} {coq_en(en_after)} "
+           f"{coq_adj(adj_before)} {coq_adj(raw_adj(dqm))} {coq_rawq(raw_quad(dqm))})")
     return {"coq": coq, "check_fn": "check_dqm_eq", "features": {"kind": "dqm_eq"},
             "py_fail": before["asym"] or after["asym"],
             "nontrivial": len(gt) > 0, "observed": {"after": str(after["lin"])}}
@@ -379,6 +400,7 @@ def run_dqm_ineq(c):
     dqm, labels = build_dqm(c)
     before = observe_dqm(dqm)
     en_before = dqm_energies(dqm)
+    adj_before = raw_adj(dqm)
     lam = F(c["lam"])
     method = c["method"]
     coeffs = [b for _, _, b in c["terms"]]
@@ -424,7 +446,8 @@ def run_dqm_ineq(c):
     m = {'log2': 'Log2', 'log10': 'Log10', 'linear': 'Linear'}[method]
     coq = (f"(mkDqmIneq {cnat(after['n'])} {coq_groups(before['groups'])} {m} {terms} {cq(lam)} "
            f"{cz(c['const'])} {cz(c['lb'])} {cz(c['ub'])} {out} {coq_dobs(before)} {coq_dobs(after)} "
-           f"{coq_en(en_before)} {coq_en(en_after)})")
+           f"{coq_en(en_before)} {coq_en(en_after)} "
+           f"{coq_adj(adj_before)} {coq_adj(raw_adj(dqm))} {coq_rawq(raw_quad(dqm))})")
     feats = {"kind": "dqm_ineq", "dqm_slack_method": method, "outcome": "raised" if raised else ("slack" if slack else "none")}
     if method == 'log10':
         feats["overcovers"] = bool(over)
